@@ -210,14 +210,21 @@ def commit (c : Cache) (p : Path) (u : Url) (t : Bytes) (io : CommitIo) : Cache 
     if !io.removeOk then c
     else if io.persistOk then c.set p (some (.file content)) else c.set p none
 
+/-- `SimpleSymbolSupplier::locate_file`: the local symbol paths in order, the cache directory last;
+    only a regular file counts (`fs::metadata(..).is_file()`) -/
+def lookupLocal (c : Cache) (req : Req) : Option Bytes :=
+  match req.localHit with
+  | some b => some b
+  | none =>
+    match c req.path with
+    | some (.file b) => some b
+    | _ => none
+
 def step {P : ParserModel} (c : Cache) (req : Req) : Phase P → Ev → Cache × Phase P
   | .start, .lookup =>
-    match req.localHit with
+    match lookupLocal c req with
     | some b => (c, .done (.localFile b))
-    | none =>
-      match c req.path with
-      | some (.file b) => (c, .done (.localFile b))
-      | _ => (c, nextUrl req.urls)
+    | none => (c, nextUrl req.urls)
   | .start, .drop => (c, .dropped)
   | .awaitStatus u rest, .status code createOk =>
     if isErrorStatus code then (c, nextUrl rest)
